@@ -955,7 +955,12 @@ func (rl *Shell) killRegion() {
 		return
 	}
 
+	// Point might be at the end of the region:
+	// the text is killed, and point is where it was.
+	bpos, _ := rl.selection.Pos()
+
 	rl.Buffers.Write([]rune(rl.selection.Cut())...)
+	rl.cursor.Set(bpos)
 }
 
 // Copy the text in the region to the kill buffer.
